@@ -67,6 +67,10 @@ impl Phase for Mutations {
         out.begin(|| src.clone());
         let class = classify(&toks).0;
         let v = judge(out, &toks, &src, Want::IllFormed, "malformed");
+        let tight = gen::render_tight(&toks);
+        if tight != src {
+            judge(out, &toks, &tight, Want::IllFormed, "malformed");
+        }
         if let Class::Ill(why) = &class {
             out.nontrivial(&src);
             out.count(&format!("ILL reason: {}", why));
